@@ -163,6 +163,15 @@ func obusFromTok(t Tok) []av1OBU {
 
 func runAv1Lossless(mtu int, os []av1OBU) Outcome {
 	in := encodeOBUs(os)
+	// the library's own serialisation of an OBU (obu.OBU.Marshal) is the rendering used here
+	var lib []byte
+	for _, x := range os {
+		h := obu.Header{Type: obu.Type(x.typ), HasSizeField: x.hasSize, Reserved1Bit: false}
+		if x.ext {
+			h.ExtensionHeader = &obu.ExtensionHeader{TemporalID: uint8(x.tid), SpatialID: uint8(x.sid), Reserved3Bits: uint8(x.res3)}
+		}
+		lib = append(lib, (&obu.OBU{Header: h, Payload: x.payload}).Marshal()...)
+	}
 	run := registry["C13"].Run
 	o1 := run(1301, []Tok{TI(int64(mtu)), TBytes(in)})
 	pk := (&codecs.AV1Payloader{}).Payload(uint16(mtu), append([]byte{}, in...))
@@ -179,6 +188,9 @@ func runAv1Lossless(mtu int, os []av1OBU) Outcome {
 		if o.Fail == "" {
 			o.Fail = x.Fail
 		}
+	}
+	if o.Fail == "" && !bytes.Equal(lib, in) {
+		o.Fail = fmt.Sprintf("obu.OBU.Marshal renders the OBUs as %x, the low-overhead format is %x", lib, in)
 	}
 	if o.Fail != "" || mtu < 2 {
 		return o
@@ -443,7 +455,7 @@ func init() {
 		case 1304:
 			v := tokU64(toks[0])
 			b := obu.WriteToLeb128(uint(v))
-			o.Impl, o.Nontrivial = B(b), true
+			o.Impl, o.Nontrivial = L(B(b), U(uint64(obu.EncodeLEB128(uint(v))))), true
 			back, n, err := obu.ReadLeb128(append(append([]byte{}, b...), 0xAA))
 			back2, _, _ := pkgobu.ReadLeb128(b)
 			if v < 1<<56 && (err != nil || uint64(back) != v || int(n) != len(b) || uint64(back2) != v) {
@@ -451,6 +463,16 @@ func init() {
 			}
 			if !bytes.Equal(b, leb(v)) {
 				o.Fail = "not the LEB128 encoding"
+			}
+			// EncodeLEB128 packs the same bytes, most significant first, into one uint (fits below 2^56)
+			if v < 1<<56 {
+				packed, want := uint64(obu.EncodeLEB128(uint(v))), uint64(0)
+				for _, x := range leb(v) {
+					want = want<<8 | uint64(x)
+				}
+				if packed != want || uint64(pkgobu.EncodeLEB128(uint(v))) != want {
+					o.Fail = fmt.Sprintf("EncodeLEB128(%d) = %#x, the LEB128 bytes packed big-endian are %#x", v, packed, want)
+				}
 			}
 			return o
 		case 1305:
